@@ -97,9 +97,19 @@ pub fn rcase() -> impl Strategy<Value = RCase> {
 /// construction, not by defect). Domain (DESIGN C09): at most half a block of reinsertion data - keys of the
 /// reinsertion set carry one-page values and the set is cut to half the entry pages of a block.
 fn effective_reinsert(case: &RCase) -> Vec<u8> {
+    if big_reinsert_key(case).is_some() {
+        return vec![case.reinsert[0]];
+    }
     let entry_pages = case.block_kib * 1024 / PAGE - 1;
     let n = (entry_pages / 2).max(1);
     case.reinsert.iter().copied().take(n).collect()
+}
+
+/// Second reinsertion class: a single admitted key whose entries fill a block exactly (the largest entry the disk
+/// tier accepts). One such entry occupies one block; every other block still yields its whole space when reclaimed,
+/// so writers keep making progress.
+fn big_reinsert_key(case: &RCase) -> Option<u64> {
+    if case.reinsert.len() == 2 { Some(case.reinsert[0] as u64) } else { None }
 }
 
 /// Structural condition of the known finding "stale entry after reuse": the stale version and the current version of
@@ -394,7 +404,12 @@ pub fn exec_c09(case: &RCase) -> CaseReport {
             ROp::Insert { k, pages } => {
                 // reinsertion keys: one page (see effective_reinsert)
                 let pages = if reinsert_keys.contains(&(*k as u64)) { &1u8 } else { pages };
-                let len = len_of(*pages);
+                let len = if big_reinsert_key(case) == Some(*k as u64) {
+                    // exactly the per-entry maximum: the aligned entry is as large as the entry space of a block
+                    (cfg.block_size - cfg.blob_index_size) - ENTRY_OVERHEAD - 11
+                } else {
+                    len_of(*pages)
+                };
                 let v = sim.raw_insert(*k as u64, len);
                 model.insert(*k as u64, Some((v, len)));
                 bytes_written += (*pages as usize).clamp(1, 3) * PAGE;
